@@ -9,6 +9,7 @@ let dispatch fn args = match fn, args with
     let l = k_multi (bool_of_str stream) (bool_of_str js) (nlist_of_string codes) in
     if bool_of_str js then string_of_nlist l else string_of_nlist [List.hd l]
   | "seldec", [codes] -> string_of_nlist (k_seldec (nlist_of_string codes))
+  | "stdincopy", [codes] -> string_of_nlist (k_stdincopy (nlist_of_string codes))
   | "exit", [ok] -> hex_of_z (exit_status (bool_of_str ok))
   | _ -> failwith ("unknown function " ^ fn)
 let () = main dispatch
